@@ -29,7 +29,7 @@ try:
             print(f"{m['id']:14s} PATCH DOES NOT APPLY on HEAD ({ap.stderr.strip()[:80]})")
             continue
         for prop in props:
-            env = dict(os.environ, VERIF_REPO=wt)
+            env = dict(os.environ, VERIF_REPO=wt, VERIF_OUT="/tmp/vout_regress")
             r = subprocess.run(["./check", prop, "--tier", "quick"], cwd="/verif", env=env, capture_output=True, text=True)
             nv = r.stdout.count("VIOLATION property=")
             status = "caught" if r.returncode == 1 and nv else ("MACHINERY" if r.returncode == 2 else "MISSED")
